@@ -8,9 +8,34 @@ import threading
 import time
 
 
+class FastWorld:
+    """What the pool module sees as `time`: the wall clock of a world in which everything (the user, the
+    driver, the jobs) is SPEED times faster than here - equivalently a clock that advances SPEED times more
+    slowly.  A pool that lived for seconds here lived for a fraction of a second there, so anything the pool
+    derives from the wall clock (the first task id of a new pool) is put to the test a fast user would put
+    it to: restarting the pool sooner after its start than it accepted tasks.  Microsecond-based ids of
+    pools started >= 1 ms apart in that world stay disjoint for any history of < 1000 tasks."""
+    SPEED = 50
+
+    def __init__(self):
+        self._base = time.time_ns()
+
+    def time_ns(self):
+        return self._base + (time.time_ns() - self._base) // self.SPEED
+
+    def time(self):
+        return self.time_ns() / 1e9
+
+    def __getattr__(self, name):
+        return getattr(time, name)
+
+
 class Pool:
     def __init__(self, wd, ctl, cores=16):
         from gwf.backends import local
+
+        if not isinstance(local.time, FastWorld):
+            local.time = FastWorld()
 
         self.wd, self.ctl = wd, ctl
         os.makedirs(os.path.join(ctl, "release"), exist_ok=True)
